@@ -12,6 +12,7 @@
    validated by the differential oracle (plain exec vs instrumented exec), not proved. *)
 From Coq Require Import List ZArith NArith Bool.
 Import ListNotations.
+From PyccoloV Require proofs.DocProofs.
 From PyccoloV Require Import gen.PyAst gen.Events model.Tree model.Erase model.RwFrag proofs.EraseSound proofs.RwFragProofs.
 From PyccoloV Require Import model.FragSem proofs.FragSemProofs.
 From PyccoloV Require model.FragFun proofs.FragFunProofs model.FragProg proofs.FragProgProofs.
@@ -61,6 +62,11 @@ Print Assumptions C01_erase_any.
 Theorem C01_rw_frag : forall (c : rcfg) (m : tree), in_frag m = true -> erase (rw_module c m) = Some [m].
 Proof. exact rw_module_erase. Qed.
 Print Assumptions C01_rw_frag.
+(* ... and a module docstring stays the first statement, as written, before init_module (the fragment has no other scopes) *)
+Theorem C01_rw_frag_docstring : forall (c : rcfg) (m : tree), in_frag m = true ->
+  exists body' ti, rw_module c m = T kModule [] [body'; ti] /\ doc_head_ok body' = true.
+Proof. exact rw_module_doc_head. Qed.
+Print Assumptions C01_rw_frag_docstring.
 Theorem C01_rw_frag_certified : forall (c : rcfg) (m : tree), in_frag m = true -> check_erase m (rw_module c m) = true.
 Proof. exact rw_module_certified. Qed.
 Print Assumptions C01_rw_frag_certified.
@@ -76,6 +82,36 @@ Definition ex_out : tree :=
                   [T kkeyword [SId 6] [[T kConstant [SInt 7%Z; SNone] []]]; T kkeyword [SId 7] [[T kConstant [SNone; SNone] []]]]]]]]; []].
 Example C01_nonvacuous : check_erase ex_src ex_out = true /\ check_erase ex_src ex_src = true.
 Proof. vm_compute. split; reflexivity. Qed.
+
+(* DOCSTRING POSITIONS (model/Erase.v check_docs, proofs/DocProofs.v).  `EMIT(.., ret="s")` has the value of "s", and the erasure treats it
+   so; but a string is the docstring of a function / class / module only when it stands, as written, as the first statement of the body -
+   a fact about syntax that no law of C01_erase_sound sees.  `check_docs out` is evaluated on every rewriter output together with check_erase;
+   for EVERY tree it accepts and every function / class / module body ANYWHERE in it (guard-exempt and pristine copies included): if the erased
+   body (which check_erase compares with the source) begins with a docstring, then the body as written begins with that very statement;
+   and a docstring written at the head of a body is the head of the erased body.  So source and output have their docstrings in the same places. *)
+Theorem C01_docstrings_kept : forall out k sc fs body d' rest,
+  check_docs out = true -> DocProofs.subtree (T k sc fs) out -> scope_body k fs = Some body ->
+  erase_stmts body = Some (d' :: rest) -> is_docstring_strict d' = true ->
+  exists body', body = d' :: body'.
+Proof. exact DocProofs.check_docs_everywhere. Qed.
+Print Assumptions C01_docstrings_kept.
+Theorem C01_docstrings_erased : forall d body l,
+  is_docstring_strict d = true -> erase_stmts (d :: body) = Some l -> exists rest, l = d :: rest.
+Proof. exact DocProofs.doc_head_erased. Qed.
+Print Assumptions C01_docstrings_erased.
+
+(* non-vacuity: `def f(): "doc"; pass` whose string has been wrapped passes check_erase (the value is the same) and fails check_docs;
+   left as written it passes both *)
+Definition doc_fun (d : tree) : tree :=
+  T kModule [] [[T kFunctionDef [SId 100%N; SNone] [[T karguments [] [[]; []; []; []; []; []; []]]; [d; T kPass [] []]; []; []; []]]; []].
+Definition doc_stmt : tree := T kExpr [] [[T kConstant [SStr 500%N; SNone] []]].
+Definition doc_wrapped : tree :=
+  T kExpr [] [[T kCall [] [[T kName [SId 1%N] [[T kLoad [] []]]]; [T kConstant [SStr 1090%N; SNone] []; T kConstant [SNid 3%N; SNone] []];
+                          [T kkeyword [SId 6%N] [[T kConstant [SStr 500%N; SNone] []]]]]]].
+Example C01_docstrings_nonvacuous :
+  check_erase (doc_fun doc_stmt) (doc_fun doc_wrapped) = true /\ check_docs (doc_fun doc_wrapped) = false /\
+  check_erase (doc_fun doc_stmt) (doc_fun doc_stmt) = true /\ check_docs (doc_fun doc_stmt) = true.
+Proof. vm_compute. repeat split; reflexivity. Qed.
 
 (* non-vacuity of the fragment theorem: `a = b + 1 < 2 < a` then `if a: a` is in the fragment, and with every event on
    the model's output is a different, much larger tree *)
